@@ -24,3 +24,40 @@ pub fn panic_message(e: &Box<dyn std::any::Any + Send>) -> String {
 }
 
 pub mod dsl;
+
+/// Global allocator of the harness binaries.  Normally it is the system allocator.  With the quarantine switched on (second
+/// replay of the C16 two-process comparison) freed blocks are parked in a ring of `QN` entries before they really go back to
+/// the system allocator, so that the address-reuse pattern of the heap differs from the first replay: behaviour that depends
+/// on allocation addresses (e.g. anything keyed by a pointer that can dangle) then shows as a difference between the replays.
+pub mod qalloc {
+  use std::alloc::{GlobalAlloc, Layout, System};
+  use std::cell::UnsafeCell;
+  use std::sync::atomic::{AtomicBool, AtomicUsize, Ordering};
+
+  const QN: usize = 8192;
+  pub struct QAlloc;
+  struct Ring(UnsafeCell<[(usize, usize, usize); QN]>);
+  unsafe impl Sync for Ring {}
+  static RING: Ring = Ring(UnsafeCell::new([(0, 0, 0); QN]));
+  static POS: AtomicUsize = AtomicUsize::new(0);
+  static ON: AtomicBool = AtomicBool::new(false);
+  static LOCK: AtomicBool = AtomicBool::new(false);
+
+  pub fn enable_quarantine() { ON.store(true, Ordering::SeqCst); }
+
+  unsafe impl GlobalAlloc for QAlloc {
+    unsafe fn alloc(&self, l: Layout) -> *mut u8 { System.alloc(l) }
+    unsafe fn realloc(&self, p: *mut u8, l: Layout, n: usize) -> *mut u8 { System.realloc(p, l, n) }
+    unsafe fn dealloc(&self, p: *mut u8, l: Layout) {
+      if !ON.load(Ordering::Relaxed) || l.size() > 4096 { System.dealloc(p, l); return; }
+      while LOCK.compare_exchange_weak(false, true, Ordering::Acquire, Ordering::Relaxed).is_err() { std::hint::spin_loop(); }
+      let i = POS.load(Ordering::Relaxed);
+      let ring = &mut *RING.0.get();
+      let old = ring[i];
+      ring[i] = (p as usize, l.size(), l.align());
+      POS.store((i + 1) % QN, Ordering::Relaxed);
+      LOCK.store(false, Ordering::Release);
+      if old.0 != 0 { System.dealloc(old.0 as *mut u8, Layout::from_size_align_unchecked(old.1, old.2)); }
+    }
+  }
+}
